@@ -53,7 +53,7 @@ let parse_event toks : op option =
   | ["S"; h] -> Some (OpSocc (n h))
   | ["="; hd; hs] -> Some (OpAssign (n hd, n hs))
   | ["X"; h] -> Some (OpDestroy (n h))
-  | ["A"; h; cnt; grow] -> Some (OpAlloc (n h, z_of_string cnt, n grow))
+  | "A" :: h :: cnt :: grow :: _ -> Some (OpAlloc (n h, z_of_string cnt, n grow))
   | ["D"; h; b; cnt; shrink] -> Some (OpDealloc (n h, n b, z_of_string cnt, n shrink))
   | _ -> None
 
@@ -110,6 +110,12 @@ let () = iter_lines (fun line ->
           let ((r, c1), c2) = DiffRun.gen_dealloc !cfg !st h cnt in
           Printf.sprintf "g%s:%s:%s" (string_of_z r) (string_of_z c1) (string_of_z c2)
         | _ -> "g-") in
+      (* the GENERATED pvNewBlock executed on the observed pre-state of the head buffer (DiffRun.gen_newblock) *)
+      let nbt = (match toks with
+        | ["A"; _; _; _; f; c; nn; nf] when f <> "-" ->
+          let ((hk, f'), c') = DiffRun.gen_newblock (z_of_string f) (z_of_string c) (nn = "1") (z_of_string nf) in
+          Printf.sprintf "n%s:%s:%s" (string_of_z hk) (string_of_z f') (string_of_z c')
+        | _ -> "n-") in
       let hk = (match o with OpAllocFail (h, cnt, _) -> h_ok !cfg !st (OpAlloc (h, cnt, O)) | _ -> h_ok !cfg !st o) in
       let is_fail = (match o with OpAllocFail _ | OpSoccFail _ -> true | _ -> false) in
       let query = (match o with OpQuery (a, b) -> Some (alloc_eq !st a b) | _ -> None) in
@@ -123,7 +129,7 @@ let () = iter_lines (fun line ->
              Printf.sprintf "%d %d %s %s %d 1" (int p.prefs) (int p.pcount) (string_of_z (fst p.pparams)) (string_of_z (snd p.pparams))
                (int ((!st).cached ob.o_pool))
            else "dead" in
-         Printf.sprintf "%s %s %d %d %s %s %s %s" (if is_fail then "E" else match query with Some r -> (if r then "Q1" else "Q0") | None -> tag_str ob.o_dest) ps (int ob.o_allocs) (int ob.o_frees)
-           (b01 hk) (b01 (routed_ok ob)) (b01 pr) gen
+         Printf.sprintf "%s %s %d %d %s %s %s %s %s" (if is_fail then "E" else match query with Some r -> (if r then "Q1" else "Q0") | None -> tag_str ob.o_dest) ps (int ob.o_allocs) (int ob.o_frees)
+           (b01 hk) (b01 (routed_ok ob)) (b01 pr) gen nbt
        | _ -> stuck := true; "STUCK")) evs in
   print_endline (String.concat " ; " out))
